@@ -2,11 +2,13 @@
 # usage: tools/try_seed.sh <patch.diff> Cxx [Cyy ...]  — applies the patch to /repo, runs the checks, reverts.
 P="$1"; shift
 cd /verif
+[ -z "$(git -C /repo status --porcelain)" ] || { echo "REFUSED: /repo is not clean"; exit 2; }
 git -C /repo apply "$P" || { echo "patch does not apply"; exit 2; }
 for c in "$@"; do
   ./check $c 2>&1 | grep -E "VIOLATION|KNOWN-FINDING|done:" | cut -c1-160 | sort | uniq -c | sort -rn | head -6
 done
 git -C /repo checkout -- .
+git -C /repo clean -fdq   # patches that add files: remove them too (target/ is ignored, so untouched)
 git -C /verif checkout -- evidence 2>/dev/null
 python3 - <<'PY'
 import glob,os
